@@ -60,6 +60,8 @@ func (t *tr) resolveType(e ast.Expr, pkg *packages.Package) types.Type {
 			return types.Typ[types.UnsafePointer]
 		case "any":
 			return types.NewInterfaceType(nil, nil)
+		case "intmap": // total map int -> int (SMT array)
+			return types.NewArray(types.Typ[types.Int], 0)
 		}
 		if pkg != nil {
 			if o := pkg.Types.Scope().Lookup(x.Name); o != nil {
@@ -607,6 +609,17 @@ func (t *tr) specCall(c *ast.CallExpr, sc *specCtx) Term {
 			return t.specErr(sc, "boxed: unknown type")
 		}
 		return t.box(a, a.T, T)
+	case "upd": // upd(a, i, v): array a with index i set to v
+		if !need(3) {
+			return tFalse
+		}
+		a := arg(0)
+		if !strings.HasPrefix(a.Sort, "(Array ") {
+			return t.specErr(sc, "upd: not an array: %s", a.S)
+		}
+		r := store(a, arg(1), arg(2))
+		r.T = a.T
+		return r
 	case "dyntype":
 		if !need(1) {
 			return tFalse
